@@ -125,6 +125,30 @@ def gen_dist_program(prog):
                             f"{[[distchild.tag_repr(s.comm_tag) for s in ss] for ss in p.name_to_send_nodes.values()]!r}")
         res["partition"] = "\n".join(lines)
         res["tags"] = "\n".join(tags)
+        if prog.get("partcode"):
+            # the code pytato generates for every part (generate_code_for_partition, harness C target substituted)
+            import pytato as pt
+            from pytato.distributed.execute import generate_code_for_partition
+            from vf import cexec
+            texts = []
+            orig = pt.generate_loopy
+            pt.generate_loopy = lambda d, **kw: orig(d, target=cexec.VerifCTarget(), **kw)
+            try:
+                for r in range(prog["R"]):
+                    st = out["status"][r]
+                    if st[0] != "ok":
+                        continue
+                    try:
+                        bound = generate_code_for_partition(st[1]["partition"])
+                        for pid in st[1]["partition"].parts:
+                            b = bound[pid]
+                            texts.append(f"rank {r} part {pid!r}\n" + describe_kernel(b.program)
+                                         + "\nbound: " + repr(sorted(b.bound_arguments)) + "\n" + cexec.device_code(b.program))
+                    except Exception as e:  # noqa: BLE001
+                        texts.append(f"rank {r}: {_exc(e)}")
+            finally:
+                pt.generate_loopy = orig
+            res["partcode"] = "\n".join(texts)
     except Exception as e:  # noqa: BLE001
         res["partition"] = res["tags"] = _exc(e)
     return res
